@@ -28,6 +28,8 @@ def handle (st : DState) (line : String) : DState × String :=
     | "py" =>
       match args with
       | "norm" :: paths => (st, s!"{id} {PyDriver.runNorm paths}")
+      | "clia" :: cliargs => (st, s!"{id} {PyDriver.runCli cliargs}")
+      | "clis" :: cliargs => (st, s!"{id} {PyDriver.runCli cliargs}")
       | variant :: events => (st, s!"{id} {PyDriver.run variant events}")
       | [] => (st, s!"{id} bad-op")
     | "T" =>
